@@ -10,7 +10,36 @@ COMMON_TRUSTED = [
 CODEC_TRUSTED = ["Model A (coq/Codec) re-states envelope.go, message.go, notification.go, command.go, session.go, document.go, mediatype.go, node.go, identity.go; it starts at JSON value trees: the bytes<->tree step and the struct-decoding rules of encoding/json (case-insensitive member lookup, null handling, omitempty, integer parsing) are re-stated, not verified",
                  "net/url is an oracle: each case carries how ParseLimeURI treated its URI texts; theorems assume only that a parsed URI's text parses to itself (uri_fix / uri_idem hypotheses, visible in the statements)"]
 
+HS_TRUSTED = ["Model B (coq/Hs/Server.v) re-states ServerChannel.EstablishSession, negotiateSession, authenticateSession, the send*Session helpers with their state guards, FailSession/FinishSession, channel.sendSession/receiveSession/setState and Server.handleChannel as one function from a client script to a trace of events; the property is an executable monitor (coq/Hs/Monitor.v) that knows configuration and callbacks but not the server's program",
+              "transport capabilities (SupportedEncryption, SetEncryption rules of tcp/ws/in-process) are re-stated in coq/Hs/Types.v; crypto/tls itself is an oracle (handshake succeeds or not)"]
+HS_NOTE = "Trusted: Coq kernel; hand-written Model B and monitor; the Go harness (scripted raw client, injected listener, callback recorder, goroutine census) and its printers. Not modelled: write faults during the handshake, the Go scheduler (scripts are played in lock-step: the harness waits until the server blocks reading before it writes the next input)."
+
+def hs(title, prop_clause, extra=""):
+    return {
+        "title": title,
+        "design_ref": "DESIGN.md section 5 (%s); section 4 Model B" % title,
+        "technique": "Coq proof that Model B's trace is accepted by the property monitor for every configuration, callback behaviour and client script (Hoare-style induction over the script) + differential correspondence: exhaustive client scripts against the real Server",
+        "level_text": "Machine-checked proof (Coq 8.16.1, no axioms) that for every server configuration, every behaviour of the authentication/registration callbacks and every client script of any length the trace of Model B is accepted by an executable monitor whose rules are the clauses of the server-handshake properties; " + prop_clause + " Tied to the code on every run: every client script up to a depth bound over a 24-letter alphabet is played by a scripted raw client against a real Server (injected in-memory TCP connections, real TLS upgrades), and the projected observation - wire envelopes with the encryption they were read under, callback invocations with the encryption in force, connection closed, serving goroutines gone - is compared with the model's inside Coq and checked against the property's decidable clause." + extra,
+        "level_note": HS_NOTE,
+        "trusted": HS_TRUSTED,
+        "assumptions": ["sends succeed while the connection is up (write faults are C12's subject)"],
+    }
+
 PROPS = {
+    "C03": hs("No session is established without successful authentication", "for C03 the monitor admits an established envelope only after an Authenticate call for exactly the identity, scheme and credentials of the peer's most recent envelope, under an offered scheme, answered with a known role, followed by a Register call whose node is the one announced; the Established callback only after that."),
+    "C07": hs("Server handshake follows the protocol order and fails closed", "for C07 the monitor enforces the stage automaton (offer, confirmation, authentication request, round trips only when the callback asked, established, one finished/failed), the single session id, and that a violating session envelope is answered with failed + reason followed by silence and close; the state-regression guard is never hit."),
+    "C08": {
+        "title": "Client handshake tolerates any server and reports establishment truthfully",
+        "design_ref": "DESIGN.md section 5, C08; section 4 Model C",
+        "technique": "Coq proof over all selector/authenticator functions and all server scripts (induction over the script on Model C) + differential correspondence: exhaustive server scripts against the real ClientChannel.EstablishSession",
+        "level_text": "Machine-checked proof (Coq 8.16.1, no axioms) about Model C - ClientChannel.EstablishSession, negotiateSession, authenticateSession, receiveSessionFromServer, the receiver goroutine's handling of session envelopes and setState's regression guard - for arbitrary selector and authenticator functions and every server script: no panic, established reported only when the server's last word was established (with exactly its id and nodes), ids echoed, credentials only in answer to an authentication request, connection closed after finished/failed. Tied to the code on every run: every server script up to a depth bound over a 21-letter alphabet is played by a scripted raw server against the real client handshake (in-memory TCP, real TLS upgrades, library default selectors included), panics recovered and recorded, and the observation compared with the model's inside Coq.",
+        "level_note": "Trusted: Coq kernel; hand-written Model C; the harness and printers. Callbacks are assumed to return normally (as the property says). Not modelled: write faults, the Go scheduler (lock-step scripts).",
+        "trusted": ["Model C (coq/Hs/Client.v) re-states client_channel.go and the client parts of channel.go"],
+        "assumptions": ["selector and authenticator callbacks return normally"],
+    },
+    "C09": hs("Only offered transport options are negotiated and both ends apply them", "for C09 the monitor requires offers to be exactly configured-and-supported, confirmations to repeat a pair chosen from the offer, SetEncryption right after the confirmation, and every later envelope and callback under the confirmed encryption.", " The client half and the agreement of both ends are covered by Model C and the composition (see C08)."),
+    "C10": hs("A server that does not offer cleartext never authenticates over cleartext", "for C10 the monitor requires, whenever 'none' is not configured and a configured option is supported, that every authentication request, Authenticate/Register call and established envelope happens under a configured encryption."),
+    "C14": hs("Every connection that fails to establish is released", "for C14 the monitor's final condition requires that whatever was failed, aborted (non-session input, undecodable input, EOF, callback error) or is no longer served is closed, and that Established/Finished fire only for established sessions."),
     "C01": {
         "title": "Envelope JSON round-trip preserves kind and content",
         "design_ref": "DESIGN.md section 5, C01; section 4 Model A",
